@@ -82,7 +82,30 @@ if ROUND == 5:
               "C18I": "the starting guess is one object shared by all runs of a problem",
               "C19I": "the weights pseudo-mode -1 in update requests, data short by less than one block",
               "C20I": "aggregated values scaled by 2^-40 / 2^40"}
-for d in sorted(SRC.glob("C??[CDEFGHIJ]")):
+if ROUND == 6:
+    MISSED = {"C01K": "the matricized form through the constructor with a redundant pair of entries that cancel",
+              "C01L": "small magnitudes (2^-40) through sptenmat.from_array",
+              "C02K": "homogeneity of the norm on integer-typed data whose squares do not fit the element type",
+              "C03L": "quotients by a scalar compared bit for bit with numpy's own division",
+              "C04L": "one read that names a position more than once",
+              "C06K": "sptenmat constructor with a repeated pair that cancels exactly",
+              "C06L": "assignments that add entries to an sptenmat holding its entries in the operand's stored order",
+              "C07K": "IndexMaps_Bits: power-of-two shapes with up to 2^62 cells, subscripts as bit strings",
+              "C07L": "the result of an index map may not share storage with its operand",
+              "C09K": "data magnitude 2^-70",
+              "C10K": "16-bit data for tucker_als",
+              "C10L": "data magnitudes 2^-30 / 2^25 for hosvd",
+              "C12K": "the all-modes kernel against the one-mode kernel for integer-typed factor matrices and non-integer entries",
+              "C12L": "model values up to +-300 for the logit losses",
+              "C13K": "histories with absurd rates (order 3, rank 2, signed guess): epochs whose estimate is not a number",
+              "C13L": "integer- and boolean-typed data for the samplers",
+              "C14K": "a symmetric Kruskal tensor whose modes all hold one array object",
+              "C15K": "an already symmetric tensor at non-dyadic values keeps its value bit for bit (default algorithm)",
+              "C16K": "a sparse tensor with 4500 stored entries",
+              "C17L": "the reverse flag of khatrirao as a numpy boolean",
+              "C20K": "aggregated values stored in 8 bits",
+              "C20L": "every generator call returns a new object (the first result is overwritten before the second call)"}
+for d in sorted(SRC.glob("C??[CDEFGHIJKL]")):
     rj = d / "result.json"
     if not rj.exists():
         print(d.name, "no result"); continue
